@@ -11,6 +11,7 @@ import (
 	"math"
 	"sort"
 	"strings"
+	"sync"
 	"time"
 
 	ysgo "github.com/remieven/ysgo"
@@ -154,7 +155,8 @@ func encLineParts(l *ysgo.Line) []*sx.Node {
 }
 
 type pendingCommand struct {
-	ch        chan error
+	ch        chan error    // a handler that handed out its own channel: the harness fills it
+	release   chan struct{} // a converted handler blocked on a goroutine of the bridge: closing lets it return
 	remaining int
 	result    error
 }
@@ -167,9 +169,62 @@ type hostRunner struct {
 	sched    []*sx.Node
 	pending  *pendingCommand
 	waitSeen bool
+	conv     bool          // some commands are registered through ConvertAndAddCommand (names act1, act2, act3)
+	started  chan struct{} // one token per invocation of a converted handler
+	mu       sync.Mutex    // converted handlers run on goroutines of the bridge
+	nsched   int           // entries of the schedule consumed so far
+	voidFail []int         // schedule entries asking a handler without a result (act1) to fail: it cannot
 }
 
 var errScheduled = errors.New("scheduled failure")
+
+func (h *hostRunner) getPending() *pendingCommand {
+	h.mu.Lock()
+	defer h.mu.Unlock()
+	return h.pending
+}
+
+// convInvoke is the body of a converted command handler: log the call, take the next entry of the
+// schedule, and either return at once or stay blocked until the schedule releases it.
+func (h *hostRunner) convInvoke(name string, n float64, ownChannel bool) (error, chan error) {
+	h.mu.Lock()
+	h.logCall("cmd", name, []*variable.Value{variable.NewNumber(n)})
+	polls, failing := 0, false
+	if len(h.sched) > 0 {
+		polls, failing = int(h.sched[0].L[0].Int()), h.sched[0].L[1].Int() != 0
+		h.sched = h.sched[1:]
+		if failing && name == "act1" {
+			h.voidFail = append(h.voidFail, h.nsched)
+		}
+		h.nsched++
+	}
+	var result error
+	if failing {
+		result = errScheduled
+	}
+	if ownChannel {
+		ch := make(chan error, 1)
+		if polls == 0 {
+			ch <- result
+		} else {
+			h.pending = &pendingCommand{ch: ch, remaining: polls - 1, result: result}
+		}
+		h.mu.Unlock()
+		h.started <- struct{}{}
+		return nil, ch
+	}
+	if polls == 0 {
+		h.mu.Unlock()
+		h.started <- struct{}{}
+		return result, nil
+	}
+	rel := make(chan struct{})
+	h.pending = &pendingCommand{release: rel, remaining: polls - 1, result: result}
+	h.mu.Unlock()
+	h.started <- struct{}{}
+	<-rel
+	return result, nil
+}
 
 func (h *hostRunner) logCall(kind, name string, args []*variable.Value) {
 	items := []*sx.Node{sx.Str(name)}
@@ -221,14 +276,32 @@ func newHostRunner(storerMode bool, init []*sx.Node, seed string, hcmds []string
 		h.logCall("call", "fail", args)
 		return nil, errors.New("probe failure")
 	})
+	h.started = make(chan struct{}, 64)
 	for _, name := range hcmds {
 		name := name
+		if strings.HasPrefix(name, "act") {
+			h.conv = true
+			var err error
+			switch name {
+			case "act1":
+				err = dr.ConvertAndAddCommand(name, func(n float64) { h.convInvoke(name, n, false) })
+			case "act2":
+				err = dr.ConvertAndAddCommand(name, func(n float64) error { e, _ := h.convInvoke(name, n, false); return e })
+			default:
+				err = dr.ConvertAndAddCommand(name, func(n float64) <-chan error { _, ch := h.convInvoke(name, n, true); return ch })
+			}
+			if err != nil {
+				return nil, err
+			}
+			continue
+		}
 		dr.AddCommand(name, func(args []*variable.Value) <-chan error {
 			h.logCall("cmd", name, args)
 			polls, failing := 0, false
 			if len(h.sched) > 0 {
 				polls, failing = int(h.sched[0].L[0].Int()), h.sched[0].L[1].Int() != 0
 				h.sched = h.sched[1:]
+				h.nsched++
 			}
 			var result error
 			if failing {
@@ -238,7 +311,9 @@ func newHostRunner(storerMode bool, init []*sx.Node, seed string, hcmds []string
 			if polls == 0 {
 				ch <- result
 			} else {
+				h.mu.Lock()
 				h.pending = &pendingCommand{ch: ch, remaining: polls - 1, result: result}
+				h.mu.Unlock()
 			}
 			return ch
 		})
@@ -248,14 +323,20 @@ func newHostRunner(storerMode bool, init []*sx.Node, seed string, hcmds []string
 
 // next performs one Next call, first letting the pending host command make progress.
 func (h *hostRunner) next(choice int) (out *sx.Node) {
+	h.mu.Lock()
 	if h.pending != nil {
 		if h.pending.remaining == 0 {
-			h.pending.ch <- h.pending.result
+			if h.pending.release != nil {
+				close(h.pending.release)
+			} else {
+				h.pending.ch <- h.pending.result
+			}
 			h.pending = nil
 		} else {
 			h.pending.remaining--
 		}
-	} else if h.waitSeen {
+		h.mu.Unlock()
+	} else if h.mu.Unlock(); h.waitSeen {
 		// a <<wait n>> is running (the generators use n <= 0.05): let it finish
 		time.Sleep(120 * time.Millisecond)
 		h.waitSeen = false
@@ -266,9 +347,38 @@ func (h *hostRunner) next(choice int) (out *sx.Node) {
 		}
 	}()
 	el, err := h.dr.Next(choice)
+	if h.conv {
+		// Converted handlers complete on goroutines of the bridge: "the command is due at this call"
+		// means the runner gets past it as soon as that goroutine has reported. Keep polling while
+		// the runner waits for a command that the schedule does not hold.
+		deadline := time.Now().Add(2 * time.Second)
+		for errors.Is(err, ysgo.ErrWaitingForCommandCompletion) {
+			select {
+			case <-h.started:
+			default:
+			}
+			if h.getPending() != nil {
+				break // held by the schedule: a genuine wait
+			}
+			select {
+			case <-h.started:
+				if h.getPending() != nil {
+					continue
+				}
+			case <-time.After(300 * time.Microsecond):
+			}
+			if h.getPending() != nil {
+				continue
+			}
+			if time.Now().After(deadline) {
+				return sx.Tag("hang")
+			}
+			el, err = h.dr.Next(choice)
+		}
+	}
 	switch {
 	case errors.Is(err, ysgo.ErrWaitingForCommandCompletion):
-		if h.pending == nil {
+		if h.getPending() == nil {
 			h.waitSeen = true
 		}
 		return sx.Tag("wait")
@@ -354,6 +464,12 @@ func runRunnerCase(c *sx.Node) *sx.Node {
 	for _, op := range c.L[10].Args() {
 		obs = append(obs, st.apply(op))
 	}
+	for _, h := range runners {
+		if len(h.voidFail) > 0 {
+			// the schedule asks a handler of type func(float64) to fail: not a well-formed case
+			return sx.Tag("BADCASE", sx.Str("a schedule entry consumed by act1 is a failure"))
+		}
+	}
 	finals := []*sx.Node{}
 	for _, h := range runners {
 		slog := []*sx.Node{}
@@ -427,7 +543,12 @@ func (st *execState) apply(op *sx.Node) *sx.Node {
 		}
 		// a restore abandons whatever command was pending
 		if err == nil {
+			h.mu.Lock()
+			if h.pending != nil && h.pending.release != nil {
+				close(h.pending.release) // let the abandoned handler return
+			}
 			h.pending = nil
+			h.mu.Unlock()
 			h.waitSeen = false
 			return (sx.Tag("ok"))
 		} else if strings.HasPrefix(err.Error(), "panic:") {
